@@ -145,6 +145,7 @@ func (m *meta) start() {
 }
 
 func (m *meta) handle() {
+	defer lib.VerifPoint("meta.hc.exit", m)
 	var reason error
 	var result any
 
